@@ -126,11 +126,35 @@ def cli_encoding_case(k, N, mode):
     return viol
 
 
+def hash_seed_case():
+    """a ruleset whose config lists two files for one variable (a left-over of an earlier training ahead of the current one), run as a
+    program under eight interpreter hash seeds: the same words every time, all from the language in which the file listed last counts"""
+    spec = {'terminals': {'D2': [['12', '0.5'], ['34', '0.5']], 'A3': [['fox', '0.5'], ['dog', '0.5']], 'C3': [['LLL', '0.5'], ['ULL', '0.5']]},
+            'decoy_files': {'D2': [['77', '0.5'], ['99', '0.5']], 'A3': [['zzz', '1.0']]},
+            'grammar': [['A3D2', '0.5'], ['D2', '0.5']], 'omen_prob': [], 'prince': [], 'mode': 'dyadic', 'encoding': 'utf-8'}
+    name = 'c16multi'
+    common.install_ruleset(spec, name)
+    lang = {w + d for w in ('fox', 'dog', 'Fox', 'Dog') for d in ('12', '34')} | {'12', '34'}
+    outs = {}
+    for hs in range(8):
+        o, e, rc = common.run_cli('pcfg_guesser.py', ['-r', name, '-m', 'random_walk', '-n', '24'], stdin='pipe-open', env_extra={'PYTHONHASHSEED': str(hs)})
+        outs[hs] = o
+    wit = {'hash_seed_case': True}
+    viol = []
+    if len(set(outs.values())) != 1:
+        viol.append({'property': 'C16', 'kind': 'random-walk-not-reproducible', 'detail': 'output depends on PYTHONHASHSEED', 'witness': wit})
+    bad = sorted({l for o in outs.values() for l in o.decode('utf-8', 'replace').split('\n') if l and l not in lang})
+    if bad or any(o.count(b'\n') != 24 for o in outs.values()):
+        viol.append({'property': 'C16', 'kind': 'not-in-language', 'not_words': bad[:4], 'lines': [o.count(b'\n') for o in outs.values()], 'witness': wit})
+    return viol
+
+
 def run(ctx):
     rng = ctx.rng
     common.use_impl()
     viol, samples, disagreements = [], [], []
     ops, exp = [], []
+    viol += hash_seed_case()
     dist = {'breakpoint_draws': 0, 'random_draws': 0, 'markov_walks': 0, 'fallback_last_base': 0}
     cases = nontrivial = 0
     root = common.scratch_dir('rules')
@@ -329,6 +353,8 @@ def run(ctx):
 
 def replay(ctx, payload):
     w = payload.get('violation', {}).get('witness') or {}
+    if w.get('hash_seed_case'):
+        return hash_seed_case()
     if 'enc_spec' in w:
         return cli_encoding_case(w['enc_spec'], w['limit'], w['mode'])
     if 'spec' not in w:
